@@ -18,10 +18,27 @@ thread_local! {
 /// Start logging: a snapshot of the persistent (lower) buffer is taken before every
 /// potentially writing atomic operation on it.
 pub fn begin_log(sut: &Sut) {
+    begin(sut, true, false)
+}
+
+/// Install the logging hook context: crash snapshots and/or the bounds monitor
+pub fn begin(sut: &Sut, log: bool, bounds: bool) {
     LOG.with(|l| l.borrow_mut().clear());
     let ptr = sut.bufs.lower.ptr as usize;
     let len = sut.bufs.lower.len;
     let mut ctx = Ctx::new(Mode::Log);
+    if bounds {
+        ctx.check_bounds = true;
+        ctx.ranges = vec![
+            (sut.bufs.local.ptr as usize, sut.bufs.local.len),
+            (sut.bufs.trees.ptr as usize, sut.bufs.trees.len),
+            (sut.bufs.lower.ptr as usize, sut.bufs.lower.len),
+        ];
+    }
+    if !log {
+        hook::install_ctx(ctx);
+        return;
+    }
     ctx.persistent = (ptr, len);
     ctx.on_write = Some(Box::new(move |_ev| {
         let snap = unsafe { std::slice::from_raw_parts(ptr as *const u8, len) };
@@ -39,6 +56,14 @@ pub fn begin_log(sut: &Sut) {
 pub fn end_log() -> Vec<Vec<u8>> {
     hook::take_ctx();
     LOG.with(|l| std::mem::take(&mut *l.borrow_mut()))
+}
+
+/// Stop logging; also returns the first out-of-bounds atomic access and the number of
+/// hooked operations
+pub fn end() -> (Vec<Vec<u8>>, Option<hook::Event>, u64) {
+    let ctx = hook::take_ctx();
+    let (oob, steps) = ctx.map(|c| (c.oob, c.steps)).unwrap_or((None, 0));
+    (LOG.with(|l| std::mem::take(&mut *l.borrow_mut())), oob, steps)
 }
 
 /// Recovers crash images on a second allocator instance and evaluates the oracle
